@@ -1,6 +1,6 @@
 """C01 — deferred tasks of the event loop (DESIGN §4 C01)."""
 from tbxlint.facts import extract, AnalysisBroken
-from tbxlint import locks, q
+from tbxlint import locks, q, rd
 
 SCOPE = ['event/common_loop.cpp', 'event/common_loop_run.cpp', 'event/common_loop_timer.cpp',
          'event/common_loop_signal.cpp', 'event/engines/epoll/loop.cpp', 'event/engines/select/loop.cpp']
@@ -97,6 +97,23 @@ def r2(ctx, prog, eng):
 def _cond_is(f, cond, field, want_nonnull=None):
     flds = q.subtree_fields(f, cond)
     return any(x.endswith(field) for x in flds)
+
+
+def _is_begin_of(f, e, queues, depth=0):
+    """the expression is <member queue>.begin(), possibly through a local iterator, std::make_move_iterator or an iterator copy"""
+    x = f.s(f.strip_casts(e))
+    while x is not None and x['k'] in ('CXXConstructExpr', 'MaterializeTemporaryExpr', 'CXXBindTemporaryExpr', 'ExprWithCleanups') and x.get('ch'):
+        x = f.s(f.strip_casts(x['ch'][0]))
+    if x is None or depth > 4:
+        return False
+    if x['k'] in q.CALL_KINDS and x.get('fn') in ('begin', 'cbegin') and 'obj' in x and (f.field_of(x['obj']) or '').split('::')[-1] in queues:
+        return True
+    if x['k'] in q.CALL_KINDS and (x.get('fn') or '').startswith('make_move_iterator') and x.get('args'):
+        return _is_begin_of(f, x['args'][0], queues, depth + 1)
+    if x['k'] == 'DeclRefExpr' and x.get('dk') == 'Var':
+        defs = rd.local_defs(f, x['d'])
+        return len(defs) == 1 and defs[0]['rhs'] is not None and _is_begin_of(f, defs[0]['rhs'], queues, depth + 1)
+    return False
 
 
 def r3(ctx, prog, eng):
@@ -310,8 +327,12 @@ def r6(ctx, prog, eng):
             fq = f.field_of(st['obj'])
             if fq and fq.split('::')[-1] in QUEUES and fq.startswith(CL):
                 fn = st.get('fn')
-                ctx.ob('C01.R6', '%s|%s.%s' % (locks.site_name(prog, f), fq.split('::')[-1], fn), fn in allowed,
-                       'member queue operation %s' % fn, where=f.loc(st['i']))
+                okop = fn in allowed
+                why = 'member queue operation %s' % fn
+                if not okop and fn in ('erase', 'assign') and len(st.get('args', [])) == 2 and _is_begin_of(f, st['args'][0], set(QUEUES)):
+                    # a prefix range [begin, begin + k): what is taken keeps its order, and so does what stays
+                    okop, why = True, 'member queue operation %s on a prefix range (begin .. begin + k)' % fn
+                ctx.ob('C01.R6', '%s|%s.%s' % (locks.site_name(prog, f), fq.split('::')[-1], fn), okop, why, where=f.loc(st['i']))
     # erase only inside RemoveRunFuncItemById, called only by cancel
     rm = prog.fn1(CL + '::RemoveRunFuncItemById')
     callers = set()
@@ -320,6 +341,32 @@ def r6(ctx, prog, eng):
             if st.get('usr') == rm.usr:
                 callers.add(prog.outermost(f).name)
     ctx.ob('C01.R6', '%s|erase-callers' % rm.name, callers == {CL + '::cancel'}, 'RemoveRunFuncItemById is called only by cancel(): %s' % sorted(callers))
+    # the eraser removes stably: cancelling one task must not change the relative order of the others.  On the queue it was handed it may only look (begin/end/
+    # empty/size, find/find_if), compact with the order-preserving std::remove/remove_if, and erase; it never assigns to, swaps, moves out of or pops an element
+    qpar = [p_ for p_ in rm.params if 'deque' in (p_.get('ct') or '') or 'RunFuncQueue' in (p_.get('t') or '')]
+    if len(qpar) != 1:
+        raise AnalysisBroken('RemoveRunFuncItemById: queue parameter not found')
+    MEM_OK = {'begin', 'end', 'cbegin', 'cend', 'empty', 'size', 'erase'}
+    ALG_OK = {'remove_if', 'remove', 'find_if', 'find', 'next', 'prev', 'distance', 'advance', 'operator!=', 'operator==', 'operator++', 'operator--', 'operator+', 'operator-', 'operator*',
+              'operator->', 'operator()'}
+    badops = []
+    for st in rm.calls():
+        if prog.outermost(rm) is not rm:
+            continue
+        fn = st.get('fn') or ''
+        if 'obj' in st and rm.path(st['obj']) == qpar[0]['n']:
+            if fn not in MEM_OK:
+                badops.append((st, '%s.%s()' % (qpar[0]['n'], fn)))
+        elif st['k'] == 'CXXOperatorCallExpr' and st.get('op') == '=' and 'RunFuncItem' in (st.get('t') or '') + (st.get('cls') or ''):
+            badops.append((st, 'assignment to an element'))
+        elif (st.get('callee') or '').startswith('std::') and fn not in ALG_OK and 'deque' not in (st.get('cls') or ''):
+            badops.append((st, 'std::%s()' % fn))
+    for st in rm.stmts:
+        if st and st['k'] == 'BinaryOperator' and st.get('op') == '=' and 'RunFuncItem' in (st.get('t') or '') + (st.get('ct') or ''):
+            badops.append((st, 'assignment to an element'))
+    ctx.ob('C01.R6', '%s|stable-removal' % rm.name, not badops, 'the eraser only looks, compacts with std::remove_if and erases' if not badops else
+           'the eraser uses %s on the queue it searches: removing one task moves another one out of its place, so tasks no longer run in the order they were submitted'
+           % ', '.join(sorted({w for _, w in badops})), where=rm.loc(badops[0][0]['i']) if badops else rm.loc(rm.body))
     # id allocators
     fa = prog.field(CL, 'run_in_loop_id_alloc_')
     fb = prog.field(CL, 'run_next_id_alloc_')
@@ -508,6 +555,78 @@ def r9(ctx, prog):
                % ', '.join(sorted(set(bad))[:3]), where=f.loc(f.body))
 
 
+def r11(ctx, prog, eng):
+    ctx.rule('C01.R11', 'A4 no lost wake-up at the consumer: "tasks are waiting in the cross-thread queue => a wake-up is pending" holds at every exit of handleRunInLoopFunc — the '
+             'handler that acknowledges the wake-up either took the whole queue (wholesale swap / clear / move), or is on the empty edge of a test of the queue, or committed a new '
+             'wake-up after the acknowledgement. Forward dataflow of the two facts "queue known empty" and "wake-up known pending" (joined with AND); whatever it leaves behind without '
+             'a wake-up waits until an unrelated submission', floor=1)
+    f = prog.fn1(CL + '::handleRunInLoopFunc')
+    QN = 'run_in_loop_func_queue_'
+
+    def is_ack(g, st):
+        return st['k'] == 'CallExpr' and st.get('callee') == 'read' and any((g.field_of(a) or '').endswith('run_event_fd_') for a in st.get('args', []))
+
+    def is_commit(g, st):
+        return st['k'] == 'CallExpr' and st.get('callee') == 'write' and any((g.field_of(a) or '').endswith('run_event_fd_') for a in st.get('args', []))
+    acks = {st['i'] for st in q.event_stmts(prog, eng, f, is_ack)}
+    commits = {st['i'] for st in q.event_stmts(prog, eng, f, is_commit)}
+    if not acks:
+        raise AnalysisBroken('handleRunInLoopFunc: no acknowledgement of the wake-up found')
+
+    def on_q(st):
+        return 'obj' in st and (f.field_of(st['obj']) or '').endswith(QN)
+
+    def transfer(pt, e, st):
+        if e[0] != 'S' or st is None:
+            return st
+        x = f.stmts[e[1]]
+        E, W, I = st
+        E0, W0 = E, W
+        if x['i'] in acks:
+            W = False
+        if x['i'] in commits:
+            W = True
+        if x['k'] in q.CALL_KINDS:
+            args_q = any((f.field_of(a) or '').endswith(QN) for a in x.get('args', ()))
+            if x.get('fn') == 'swap' and (on_q(x) or args_q):
+                other = [a for a in x.get('args', ())] + ([x['obj']] if 'obj' in x else [])
+                E = any((f.field_of(o) or '').endswith('tmp_func_queue_') for o in other)     # the batch queue is empty between batches (C01.R9)
+            elif on_q(x) and x.get('fn') == 'clear':
+                E = True
+            elif on_q(x) and x.get('fn') in ('push_back', 'emplace_back', 'push_front', 'emplace_front', 'insert', 'emplace', 'operator=', 'assign'):
+                E = False
+            elif (x.get('callee') or '').startswith('std::move') and args_q:
+                E = True
+        # I = "E or W" kept as a fact of its own, so that it survives a join of an "empty" path with a "woken" path
+        if (E0 and not E) or (W0 and not W):
+            I = E or W
+        if E or W:
+            I = True
+        return (E, W, I)
+
+    def edge(b, k, st):
+        if st is None:
+            return st
+        blk = b if hasattr(b, 'cond') else f.cfg.blocks[b]
+        if blk.cond is not None and len(blk.succ) == 2:
+            if q.edge_holds(f, blk.cond, k, QN + '.empty()', '!=', '0') or q.edge_holds(f, blk.cond, k, QN + '.size()', '==', '0'):
+                return (True, st[1], True)
+        return st
+    inn, before = f.cfg.forward((False, True, True), transfer, lambda a, b: (a[0] and b[0], a[1] and b[1], a[2] and b[2]), edge=edge)
+    bad = []
+    ends = [q.pt(f, r) for r in q.returns(f)]
+    for b in f.cfg.blocks.values():
+        if f.cfg.exit in [s_ for s_ in b.succ if s_ is not None] and not any(p_[0] == b.id for p_ in ends):
+            ends.append((b.id, len(b.el)))
+    for p_ in ends:
+        v = before.get(p_)
+        if v is not None and not v[2]:
+            bad.append(p_)
+    ctx.ob('C01.R11', '%s|queue-empty-or-woken' % f.name, not bad, 'at every exit the cross-thread queue was taken whole or a wake-up is pending' if not bad else
+           'a path through handleRunInLoopFunc() acknowledges the wake-up (the eventfd is emptied, has_commit_run_req_ cleared) while tasks may remain in %s and no new wake-up is '
+           'committed: a running, idle loop leaves them there until some unrelated submission arrives' % QN, where=f.loc(f.body))
+
+
 def run(ctx):
     prog = extract('ALL' if ctx.tier == 'thorough' else SCOPE)
     eng, ctxs, anyf, loopf = setup(prog)
@@ -520,5 +639,6 @@ def run(ctx):
     ctx.guard(r8, ctx, prog, eng, ctxs, anyf)
     ctx.guard(r9, ctx, prog)
     ctx.guard(r10, ctx, prog, eng)
+    ctx.guard(r11, ctx, prog, eng)
     ctx.guard(r7, ctx, prog, eng, ctxs)
     return prog
